@@ -214,4 +214,54 @@ observation point of the property -/
 def restrictTo (f : Nat) (rows : List FRow) (out : List XR) : List XR :=
   ((rows.zip out).filter (fun p => p.1.fold == f)).map (fun p => p.2)
 
+/-! ## The decision-function gate of `_predict` and the loop over collections
+(mokapot/brew.py:414-416, 460-481, consumed by `list(_predict(...))` at brew.py:246-254)
+
+`predictFolds` above is the case in which every fold's estimator exposes
+`decision_function` and one collection is scored.  The code decides *per model* whether
+the fold is calibrated (`try: mod.estimator.decision_function … except AttributeError:
+scores.append(np.hstack(fold_scores.pop(0)))`) and runs the whole procedure once per
+collection, with fresh accumulators, inside a generator that `brew` consumes with `list`. -/
+
+/-- `for a in l: out.append(g(a))` where `g` may raise: the first failure stops the loop and
+nothing is returned. src: mokapot/brew.py:460-476 (`for mod in models:`), 246-254
+(`list(_predict(...))` over the collections) -/
+def mapE {α β ε : Type} (g : α → Except ε β) : List α → Except ε (List β)
+  | [] => Except.ok []
+  | a :: rest => Except.bind (g a) (fun v => Except.bind (mapE g rest) (fun vs => Except.ok (v :: vs)))
+
+/-- one pass of `for mod in models:`; `df` says whether `mod.estimator.decision_function`
+exists.  With it the fold is calibrated (`calibrateFold`); without it (AttributeError) the
+fold's raw scores are appended unchanged — `np.hstack` of an empty list raises ValueError in
+both branches. src: mokapot/brew.py:460-476 -/
+def calibrateFoldDF (thr : Rat) (df : Bool) (fr : List (FRow × Nat)) : Except CalErr (List XR) :=
+  if df then calibrateFold thr fr
+  else if fr.isEmpty then Except.error CalErr.empty
+  else Except.ok (fr.map (fun r => XR.fin r.1.raw))
+
+/-- `_predict` for one collection with one flag per model (`dfs[f]` = the estimator of
+`models[f]` exposes `decision_function`); `len(models) = dfs.length` folds.
+src: mokapot/brew.py:414-481 -/
+def predictFoldsDF (c : Nat) (dfs : List Bool) (thr : Rat) (rows : List FRow) : Except CalErr (List XR) :=
+  if dfs.length = 0 then Except.error CalErr.empty
+  else
+    Except.bind (mapE (fun p => calibrateFoldDF thr p.1 (foldRowsChunked c p.2 rows.zipIdx)) dfs.zipIdx) (fun cal =>
+      Except.ok ((List.range rows.length).map (fun i =>
+        lookupX i ((((List.range dfs.length).flatMap (fun f => foldRowsChunked c f rows.zipIdx)).map (fun r => r.2)).zip
+          cal.flatten))))
+
+/-- `list(_predict(models_idx, psms, models, test_fdr, …))`: every collection is scored
+with the same models and its own accumulators (`fold_scores`, `targets`, `orig_idx` are
+created inside the loop); an error in one collection stops the run — no scores at all
+are returned, also not for the collections before it.
+src: mokapot/brew.py:414-421 (loop head and accumulators), 246-254 (`list(...)`) -/
+def predictColls (c : Nat) (dfs : List Bool) (thr : Rat) (colls : List (List FRow)) :
+    Except CalErr (List (List XR)) :=
+  mapE (predictFoldsDF c dfs thr) colls
+
+/-- **Specification** of one fold's returned scores under the gate: the calibration of that
+fold's rows when the fold's estimator has a decision function, the raw scores otherwise -/
+def foldSpecDF (thr : Rat) (df : Bool) (xs : List (Rat × Bool)) : Except CalErr (List XR) :=
+  if df then calibrate true thr xs else Except.ok (xs.map (fun x => XR.fin x.1))
+
 end Mk.Calibrate
